@@ -4,11 +4,16 @@ def nt_default(q, a):
     return not a.startswith("bad-op")
 
 PROPS = {}
+HOOK_COMMITS = []
+NOT_YET = {}
+NOTES = "All checks: ./check <Cid> [--tier quick|thorough] [--replay file]. Each run rebuilds the harness against /repo's working tree, regenerates the behavioural tables, re-checks the Lean theorems of the property and runs the correspondence streams. See DESIGN.md."
 
 PROPS["C03"] = {
     "streams": [{"comp": "C03", "quick_n": 20000, "thorough_n": 2000000,
                  "nontrivial": lambda q, a: not a.startswith("bad-op") and not a.startswith("0 ")}],
     "rule": "every one of the 25 opcodes executed by the real interpreter (Interpreter::run on [op], all specs where it exists) on: the complete cross product of 67 boundary words for unary/binary ops, biased-random words, and relation-driven pairs (a,a), (a,-a), (a,a+1), (a,b,a); non-trivial = result word is not 0; distinct by request line",
     "explanation": "Theorems: Model.op = Spec.op for all words < 2^256 (Spec = unbounded Nat/Int arithmetic mod 2^256). The model follows the Rust control flow over ruint primitives; the correspondence stream ties it to the compiled opcode handlers, including gas charged and stack items consumed.",
+    "level_text": "Kernel-checked theorems Model.op = Spec.op for all 256-bit operands (Spec = unbounded Nat/Int arithmetic mod 2^256, two's complement for signed ops); the model follows the Rust control flow; opcodes without a closed theorem yet are carried by the three-way correspondence impl = model = spec column.",
+    "level_note": "Trusted: Lean kernel; ruint primitives as defined in Util/Word.lean; the model is tied to the compiled opcode handlers by differential correspondence (boundary cross product + random), not by proof.",
     "trusted_base": ["ruint primitive operations (+,-,*,/,%,pow loop body, shifts, bit, add_mod, mul_mod) as defined in Revm/Util/Word.lean"],
 }
